@@ -7,7 +7,7 @@ import numpy as np
 from dimarray.config import get_option
 from dimarray.tools import is_DimArray
 from dimarray.core.axes import Axes, Axis
-from dimarray.core.indexing import locate_many, _maybe_cast_type
+from dimarray.core.indexing import locate_many, _maybe_cast_type, is_monotonic, is_numeric
 
 __all__ = ["broadcast_arrays", "align", "stack", "concatenate"]
 
@@ -143,7 +143,28 @@ def broadcast_arrays(*arrays):
 
     return newarrays
 
-def _common_axis(axes, join):
+def _keep_direction(com_axis, axes):
+    """ the union of several axes is a succession of pairwise unions, in which one-label axes (they have no
+    direction of their own) may meet first: when all the axes are sorted the same way, make sure the result is too
+    """
+    values = [ax.values for ax in axes if ax.size > 0 and ax.values[0] is not None]
+    if not all(is_monotonic(v) for v in values):
+        return com_axis
+    slopes = set(bool(v[-1] >= v[0]) for v in values if v.size > 1)
+    if len(slopes) != 1:
+        return com_axis
+    if not (all(is_numeric(v) for v in values) or all(isinstance(x, str) for v in values for x in v)):
+        return com_axis
+    joined = np.sort(com_axis.values)
+    if not slopes.pop():
+        joined = joined[::-1]
+    if np.all(com_axis.values == joined):
+        return com_axis
+    ax = Axis(joined, com_axis.name)
+    ax.attrs.update(com_axis.attrs)
+    return ax
+
+def _common_axis(axes, join, _top=True):
     """ find the common axis among a list of axes ==> proceed recursively
     """
     assert len(axes) > 0
@@ -154,7 +175,7 @@ def _common_axis(axes, join):
 
     # recursive call
     ax0 = axes[0]
-    ax1 = _common_axis(axes[1:],join)
+    ax1 = _common_axis(axes[1:],join, _top=False)
 
     # special cases
     # do not include None unless we have a singleton
@@ -170,6 +191,8 @@ def _common_axis(axes, join):
     # and prevents false "good" ideas (such as indeed, adding hidden attributes)
     if join == 'outer':
         com_axis = ax0.union(ax1)
+        if _top and len(axes) > 2:
+            com_axis = _keep_direction(com_axis, axes)
     else:
         com_axis = ax0.intersection(ax1)
     return com_axis
